@@ -228,7 +228,7 @@ let () =
   let idx = ref (-1) in
   (* one model: what /repo HEAD does (all C16 findings are fixed); the pre-fix behaviours survive only as
      the refuted theorem in Properties.v, not in the correspondence *)
-  let zlb_recv = false in
+  let zlb_recv = false in   (* HEAD's dispatch rule; the pre-96f9f16 rule exists only in the refuted theorem *)
   List.iter (fun line ->
       incr idx;
       match tokens line with
@@ -245,8 +245,9 @@ let () =
         let handed e = match ep_deliver false e (data 0 0) Z0 None with (e', ODeliver (h, _, _)) -> (e', h) | (e', _) -> (e', false) in
         let (e1, h1) = handed e0 in
         let (_, h2) = handed e1 in
-        let count = (if h1 then 1 else 0) + (if zlb_recv then 1 else if h2 then 1 else 0) in
-        Printf.printf "sccrqdup tunnels=%d\n" count
+        let count = (if h1 then 1 else 0) + (if h2 then 1 else 0) in
+        (* one SCCRP is written: the handler (and its reply) runs only for the copy that was handed over *)
+        Printf.printf "sccrqdup tunnels=%d sccrp=%d\n" count count
       | ["stopccn"] ->
         (* SCCRQ (reply SCCRP), SCCCN, StopCCN (handler removes the tunnel) through the dispatch rule; the owed
            acknowledgement is sent at teardown (FlushAck = a Tick at the ZLB deadline; before e462f04 the runner
@@ -277,16 +278,16 @@ let () =
           (match o with OTick (ret, _, _) -> t := iz (runner_next ret (zi !t)) | _ -> t := !t + 500)
         done;
         Printf.printf "idle acked=%d\n" (if !acked_at >= 0 && !acked_at <= th + 200 + 500 + 50 then 1 else 0)
-      | ["overlap"] ->
+      | ["overlap"; op] ->
         (* channel operations are atomic steps in the model: while Tick is inside the channel, Recv has to wait;
            (before 63cd1b1 the runner's Tick, the punt consumer's Recv and the Hello Send were unsynchronised) *)
-        print_endline (if zlb_recv then "tick-in-send recv=returned" else "tick-in-send recv=blocked")
+        print_endline ("tick-in-send " ^ op ^ " recv=blocked")
       | ["rws"; role; w; k; a] ->
         (* establishment with an advertised Receive Window Size (see the dispatch harness).
            the window is narrowed to the advertised value (4 when absent) as soon as the peer's AVPs are
            known (before 3558639 it stayed at the 16 of runner.go startTunnelRunner) *)
         let adv = if w = "-" then 4 else ios w in
-        let setw e = if zlb_recv then e else fst (ep_setwin e (zi adv)) in
+        let setw e = fst (ep_setwin e (zi adv)) in
         let data ns nr = { k_body = Some (zi 1); k_sid = Z0; k_ns = zi ns; k_nr = zi nr } in
         let del e ns nr = fst (ep_deliver false e (data ns nr) Z0 None) in
         let sub e = fst (ep_submit e (zi 1) Z0 Z0 None) in
@@ -308,7 +309,7 @@ let () =
         (* dispatch.go:139-169: fresh channel (PeerRWS 16), Recv(h.Ns, h.Nr) with the result ignored, Send(SCCRP) *)
         let e = new_endpoint Z0 Z0 Z0 Z0 (zi 16) Z0 Z0 in
         (* the harness's SCCRQ advertises a Receive Window Size of 4 *)
-        let e = if zlb_recv then e else fst (ep_setwin e (zi 4)) in
+        let e = fst (ep_setwin e (zi 4)) in
         let p = { k_body = Some (zi 1); k_sid = Z0; k_ns = zi (ios ns); k_nr = zi (ios nr) } in
         let (e1, o1) = ep_deliver false e p Z0 None in
         let (e2, o2) = ep_submit e1 (zi 1) Z0 Z0 None in
